@@ -41,6 +41,14 @@ func putLanes(cl *fold.Call, order string, width int) fold.Val {
 		}
 		if v.IsConst() {
 			lane = fold.K(int64((uint64(v.Const()) >> shift) & 0xff))
+		} else if v.L != nil && int(shift/8) < len(v.L) {
+			nm := v.L[shift/8]
+			var x int64
+			if _, err := fmt.Sscanf(nm, "%d", &x); err == nil && fmt.Sprint(x) == nm {
+				lane = fold.K(x)
+			} else {
+				lane = fold.Int{Lo: 0, Hi: 255, Name: nm}
+			}
 		} else {
 			name := v.Name
 			if name == "" {
@@ -120,10 +128,19 @@ func getLanes(cl *fold.Call, order string, width int) fold.Val {
 	if round {
 		name = src
 	}
-	if top {
-		return fold.Int{Top: true, Name: name}
+	// little-endian byte lanes of the loaded word
+	lanes := make([]string, n)
+	for i, nm := range names {
+		if order == "le" {
+			lanes[i] = nm
+		} else {
+			lanes[n-1-i] = nm
+		}
 	}
-	return fold.Int{Lo: 0, Hi: hi, Name: name}
+	if top {
+		return fold.Int{Top: true, Name: name, L: lanes}
+	}
+	return fold.Int{Lo: 0, Hi: hi, Name: name, L: lanes}
 }
 
 // addBinaryModels installs the lane intrinsics.
